@@ -51,6 +51,19 @@ pub fn judge(spec: &RunSpec, out: &Outcome) -> Vec<Violation> {
         if !crate::oracle::workspace_file_at_end(spec, out, d) {
             // excluded from the workspace by the final configuration: the reload removed it from
             // the analysis, so (if anything was ever published for it) it ends with an empty set
+            // ... provided it really is gone: a document the editor opened while the reload was
+            // running can still be held by the analysis although the final configuration excludes
+            // it (it is neither an "open workspace file" nor "removed from the analysis": no clause
+            // of the statement speaks about it)
+            let absent = out
+                .tree_probe
+                .iter()
+                .find(|(dd, _)| *dd == d)
+                .map(|(_, id)| matches!(crate::oracle::probe_of(out, *id), crate::oracle::Probe::Absent))
+                .unwrap_or(false);
+            if !absent {
+                continue;
+            }
             let uri = &out.uris[d];
             if let Some(last) = out.publishes.get(uri).and_then(|ps| ps.iter().filter(|p| p.seq < out.probe_start_seq).last()) {
                 if !last.diagnostics.is_empty() {
